@@ -345,6 +345,440 @@ func c33Scenario(run *mon.Run, ctx context.Context, w *world.World, mc *miner.Ch
 		}
 	}
 	_ = tbls.ComputeIDdkg
+
+	// ---- (d) shares that arrive before they can be checked
+	c33Parked(run, ctx, w, mc, r.Fork("parked"), s, other, t, n, base, tier)
+}
+
+// ---------------------------------------------------------------------------------------------------
+// (d) parked shares. A share that cannot be checked when it arrives is kept in the round's share cache by the real
+// Chain.AddVRFShare: the previous round is unknown / has no random seed yet ("prev-round-unknown", "prev-seed-unknown"),
+// or the share carries a higher timeout count than the round has at that moment ("timeout-count-ahead"; the round's
+// count is raised later, as it happens when a block of that timeout count arrives). Several observers ("nodes") get the
+// same pool of valid and invalid share messages in different orders and with different early/late splits.
+//
+// Oracle, from the share messages and the round object only:
+//   - every share the round holds verifies (herumi, reference public key share of its sender, the message of this
+//     round / timeout count / previous seed) and carries the round's timeout count; never more than t are held;
+//   - nothing is held and there is no seed while no share can be checked;
+//   - a seed exists only if valid shares of >= t parties have been delivered; it equals the seed defined by the group
+//     signature recovered (herumi Recover) from reference shares, and all observers of an episode have the same seed.
+
+type c33PMsg struct {
+	class string
+	party int // index into the world's miners; >= n means "not a party of this DKG"
+	share string
+	tc    int
+}
+
+type c33PNode struct {
+	name        string
+	early, late []c33PMsg
+	mr          *miner.Round
+	earlyKeys   map[string]bool // party|share of what was delivered early
+	validSeen   map[int]bool    // parties whose valid share has been delivered (either phase)
+	failed      bool
+}
+
+func c33Parked(run *mon.Run, ctx context.Context, w *world.World, mc *miner.Chain, r *mon.Rand, s, other *dkgSet, t, n int, base int64, tier string) {
+	tn := fmt.Sprintf("t=%d|n=%d", t, n)
+	self := s.dkgs[0]
+	all := len(w.Miners)
+	allNodes := make([]*node.Node, all)
+	idIndex := map[string]int{}
+	for i := 0; i < all; i++ {
+		allNodes[i] = w.MB.Miners.GetNode(w.Miners[i].ID)
+		idIndex[w.Miners[i].ID] = i
+	}
+	mechs := []string{"prev-seed-unknown", "prev-round-unknown", "timeout-count-ahead"}
+	nEp := 3
+	if tier == "thorough" {
+		nEp = 12
+	}
+	for ep := 0; ep < nEp; ep++ {
+		mech := mechs[ep%len(mechs)]
+		rr := r.Fork(fmt.Sprintf("parked%d", ep))
+		prn := base + 100 + int64(ep)*2
+		rn := prn + 1
+		prevSeed := int64(rr.U64()>>1) | 1
+		roundTC := rr.Intn(3)
+		if mech == "timeout-count-ahead" {
+			roundTC = 1 + rr.Intn(2)
+		}
+		msgOf := func(round int64, tc int) string { return fmt.Sprintf("%v%v%v", round, tc, strconv.FormatInt(prevSeed, 16)) }
+		msg := msgOf(rn, roundTC)
+
+		// reference verdict of one share message
+		refOK := func(party int, share string, tc int) bool {
+			if party < 0 || party >= n || tc != roundTC {
+				return false
+			}
+			var sg bls.Sign
+			if sg.SetHexString(share) != nil {
+				return false
+			}
+			return sg.Verify(s.refPK[party], msg)
+		}
+		// reference seed: group signature recovered with the library from two t-subsets of reference shares
+		var wantSeed int64
+		var wantRBO string
+		{
+			var first string
+			okRef := true
+			for k, sub := range [][]int{subsets(n, t)[0], subsets(n, t)[len(subsets(n, t))-1]} {
+				var ids []bls.ID
+				var sigs []bls.Sign
+				for _, j := range sub {
+					ids = append(ids, s.dkgs[j].ID)
+					sigs = append(sigs, *s.dkgs[j].Sign(msg))
+				}
+				var g bls.Sign
+				if err := g.Recover(sigs, ids); err != nil || !g.Verify(s.refGPK, msg) {
+					okRef = false
+					break
+				}
+				if k == 0 {
+					first = g.GetHexString()
+				} else if g.GetHexString() != first {
+					okRef = false
+				}
+			}
+			if !okRef {
+				run.Inconclusive(fmt.Sprintf("%s: the reference group signature cannot be recovered / does not verify", tn))
+				return
+			}
+			wantRBO = encryption.Hash(first)
+			u, err := strconv.ParseUint(wantRBO[:16], 16, 64)
+			if err != nil {
+				panic(err)
+			}
+			wantSeed = int64(u)
+		}
+
+		// ---- the pool of share messages of this episode
+		var valid []c33PMsg
+		for j := 0; j < n; j++ {
+			valid = append(valid, c33PMsg{"valid", j, s.dkgs[j].Sign(msg).GetHexString(), roundTC})
+		}
+		wellFormed := []string{"wrong-message", "other-round-message", "other-timeout-message", "wrong-signer", "other-dkg", "shifted", "non-member", "later-timeout-honest", "valid-but-other-timeout-count"}
+		malformed := []string{"garbage", "empty", "zero"}
+		mkBad := func(class string, j int) (c33PMsg, bool) {
+			m := c33PMsg{class: class, party: j, tc: roundTC}
+			switch class {
+			case "wrong-message":
+				m.share = s.dkgs[j].Sign(msg + "x").GetHexString()
+			case "other-round-message":
+				m.share = s.dkgs[j].Sign(msgOf(rn+1, roundTC)).GetHexString()
+			case "other-timeout-message":
+				m.share = s.dkgs[j].Sign(msgOf(rn, roundTC+1)).GetHexString()
+			case "later-timeout-honest": // what an honest miner sends for the next timeout of this round
+				m.share, m.tc = s.dkgs[j].Sign(msgOf(rn, roundTC+1)).GetHexString(), roundTC+1
+			case "valid-but-other-timeout-count":
+				m.share, m.tc = s.dkgs[j].Sign(msg).GetHexString(), roundTC+1+rr.Intn(2)
+			case "wrong-signer":
+				m.share = s.dkgs[(j+1)%n].Sign(msg).GetHexString()
+			case "other-dkg":
+				m.share = other.dkgs[j].Sign(msg).GetHexString()
+			case "shifted":
+				m.share = addSignHex(s.dkgs[j].Sign(msg).GetHexString(), randG1(rr))
+			case "non-member":
+				if n >= all {
+					return m, false
+				}
+				m.party = n + rr.Intn(all-n)
+				m.share = other.dkgs[j].Sign(msg).GetHexString()
+			case "garbage":
+				m.share = "zz" + encryption.Hash("garbage")
+			case "empty":
+				m.share = ""
+			case "zero":
+				m.share = "0"
+			}
+			return m, true
+		}
+		var bad []c33PMsg
+		nBad := 2 + rr.Intn(4)
+		for k := 0; k < nBad; k++ {
+			cl := wellFormed[rr.Intn(len(wellFormed))]
+			if rr.Chance(0.2) {
+				cl = malformed[rr.Intn(len(malformed))]
+			}
+			if m, ok := mkBad(cl, rr.Intn(n)); ok && !refOK(m.party, m.share, m.tc) {
+				bad = append(bad, m) // (with t=1 every party holds the same key share: a "wrong signer" share is valid there)
+			}
+		}
+		if len(bad) == 0 {
+			m, _ := mkBad("wrong-message", rr.Intn(n))
+			bad = append(bad, m)
+		}
+		classOf := map[string]string{}
+		key := func(party int, share string) string { return fmt.Sprintf("%d|%s", party, share) }
+		for _, m := range append(append([]c33PMsg{}, valid...), bad...) {
+			if _, ok := classOf[key(m.party, m.share)]; !ok {
+				classOf[key(m.party, m.share)] = m.class
+			}
+		}
+		shuffled := func(in []c33PMsg) []c33PMsg {
+			out := append([]c33PMsg{}, in...)
+			rr.Shuffle(len(out), func(i, j int) { out[i], out[j] = out[j], out[i] })
+			return out
+		}
+
+		// ---- the observers
+		var nodesP []*c33PNode
+		{
+			// bad shares (of distinct parties) parked, then the valid shares of a t-subset that avoids those parties if possible
+			nd := &c33PNode{name: "bad-parked"}
+			badParties := map[int]bool{}
+			for _, m := range shuffled(bad) {
+				if !badParties[m.party] && len(nd.early) < 1+rr.Intn(3) {
+					badParties[m.party] = true
+					nd.early = append(nd.early, m)
+				}
+			}
+			var pref, rest []c33PMsg
+			for _, m := range shuffled(valid) {
+				if badParties[m.party] {
+					rest = append(rest, m)
+				} else {
+					pref = append(pref, m)
+				}
+			}
+			nd.late = append(pref, rest...)
+			nodesP = append(nodesP, nd)
+		}
+		{
+			// one permutation of everything, cut at a seeded point
+			nd := &c33PNode{name: "mixed-parked"}
+			allM := shuffled(append(append([]c33PMsg{}, valid...), bad...))
+			cut := 1 + rr.Intn(len(allM))
+			nd.early, nd.late = allM[:cut], allM[cut:]
+			nodesP = append(nodesP, nd)
+		}
+		{
+			// threshold-many (or more) valid shares parked next to a bad one; a valid share arrives first afterwards
+			nd := &c33PNode{name: "valid-parked"}
+			v := shuffled(valid)
+			k := t + rr.Intn(n-t+1)
+			nd.early = shuffled(append(append([]c33PMsg{}, v[:k]...), bad[rr.Intn(len(bad))]))
+			nd.late = append(nd.late, v[rr.Intn(len(v))])
+			nd.late = append(nd.late, shuffled(append(append([]c33PMsg{}, v[k:]...), bad...))...)
+			nodesP = append(nodesP, nd)
+		}
+		{
+			// same, but the first message after the release is a bad one
+			nd := &c33PNode{name: "valid-parked-bad-first"}
+			v := shuffled(valid)
+			nd.early = append([]c33PMsg{}, v[:t]...)
+			nd.late = append(nd.late, bad[rr.Intn(len(bad))])
+			nd.late = append(nd.late, shuffled(append(append([]c33PMsg{}, v[t:]...), bad...))...)
+			nodesP = append(nodesP, nd)
+		}
+		{
+			nd := &c33PNode{name: "direct"}
+			nd.late = shuffled(append(append([]c33PMsg{}, valid...), bad...))
+			nodesP = append(nodesP, nd)
+		}
+		// every observer finally sees every valid share once more (shares are re-sent on soft timeouts)
+		for _, nd := range nodesP {
+			nd.late = append(nd.late, shuffled(valid)...)
+			nd.earlyKeys, nd.validSeen = map[string]bool{}, map[int]bool{}
+		}
+
+		// ---- rounds
+		var pr *miner.Round
+		if mech != "prev-round-unknown" {
+			pr = mc.AddRound(mc.CreateRound(round.NewRound(prn))).(*miner.Round)
+		}
+		if mech == "timeout-count-ahead" {
+			if !mc.SetRandomSeed(pr.Round, prevSeed) {
+				run.Inconclusive("cannot set the previous round's seed")
+				return
+			}
+		}
+		for _, nd := range nodesP {
+			nd.mr = mc.CreateRound(round.NewRound(rn))
+			startTC := roundTC
+			if mech == "timeout-count-ahead" && len(nd.early) > 0 {
+				startTC = rr.Intn(roundTC) // behind the shares' timeout count
+			}
+			for nd.mr.GetTimeoutCount() < startTC {
+				nd.mr.SetTimeoutCount(nd.mr.GetTimeoutCount() + 1)
+			}
+		}
+		run.Count("c33.parked_episode", 1)
+		run.Count("c33.parked_mechanism."+mech, 1)
+
+		toVRFS := func(m c33PMsg) *round.VRFShare {
+			v := &round.VRFShare{Round: rn, Share: m.share, RoundTimeoutCount: m.tc}
+			v.SetParty(allNodes[m.party])
+			return v
+		}
+		// deliver one message to one observer through the real Chain.AddVRFShare and look at the round
+		step := func(nd *c33PNode, m c33PMsg, phase string, si int) {
+			if nd.failed {
+				return
+			}
+			isValid := refOK(m.party, m.share, m.tc)
+			if isValid {
+				nd.validSeen[m.party] = true
+			}
+			if phase == "early" {
+				nd.earlyKeys[key(m.party, m.share)] = true
+				run.Count("c33.parked_delivered_early."+m.class, 1)
+			}
+			heldBefore := map[string]bool{}
+			for k := range nd.mr.GetVRFShares() {
+				heldBefore[k] = true
+			}
+			p := guard(func() { mc.AddVRFShare(ctx, nd.mr, toVRFS(m)) })
+			run.Eval(1)
+			run.Count("c33.parked_delivery_step", 1)
+			if !isValid {
+				run.Count("c33.invalid_share_evaluated", 1)
+			}
+			rep := map[string]interface{}{"seed": mon.Seed(), "t": t, "n": n, "mechanism": mech, "observer": nd.name, "phase": phase, "step": si,
+				"round": rn, "timeout_count": roundTC, "message": msg, "early": c33Labels(nd.early), "late": c33Labels(nd.late)}
+			bad := func(sig, detail string) {
+				violate(run, sig, fmt.Sprintf("t=%d n=%d, %s, observer %s, %s step %d (%s from party %d): %s", t, n, mech, nd.name, phase, si, m.class, m.party, detail), rep)
+				nd.failed = true
+				run.Checkpoint()
+			}
+			if p != "" {
+				bad("C33:share-processing-panics-"+m.class, "Chain.AddVRFShare panicked: "+p)
+				return
+			}
+			held := nd.mr.GetVRFShares()
+			if len(held) > t {
+				bad("C33:more-than-threshold-shares-held", fmt.Sprintf("the round holds %d VRF shares", len(held)))
+				return
+			}
+			for k, sh := range held {
+				pi, known := idIndex[sh.GetParty().GetKey()]
+				if sh.GetParty().GetKey() != k || !known {
+					bad("C33:share-stored-under-wrong-party", "key "+k)
+					return
+				}
+				cl := classOf[key(pi, sh.Share)]
+				if cl == "" {
+					cl = "unknown"
+				}
+				wasParked := nd.earlyKeys[key(pi, sh.Share)]
+				if !heldBefore[k] {
+					if wasParked {
+						run.Count("c33.parked_share_counted_from_cache", 1)
+					} else {
+						run.Count("c33.parked_scenario_share_counted_directly", 1)
+					}
+				}
+				if phase == "early" {
+					bad("C33:share-counted-before-it-can-be-verified", fmt.Sprintf("a %s share of party %d is among the round's VRF shares although no share of this round and timeout count can be checked yet", cl, pi))
+					return
+				}
+				if !refOK(pi, sh.Share, sh.GetRoundTimeoutCount()) {
+					sig := "C33:invalid-share-counted-" + cl
+					how := "arrived after the message was known"
+					if wasParked {
+						sig = "C33:parked-invalid-share-counted-" + cl
+						how = "was parked in the round's share cache and released from it"
+					}
+					bad(sig, fmt.Sprintf("the round's VRF shares contain a %s share of party %d (timeout count %d, round's %d) that fails verification; it %s", cl, pi, sh.GetRoundTimeoutCount(), roundTC, how))
+					return
+				}
+			}
+			if nd.mr.HasRandomSeed() {
+				if phase == "early" {
+					bad("C33:seed-below-threshold", fmt.Sprintf("the round has random seed %d before any share could be checked", nd.mr.GetRandomSeed()))
+					return
+				}
+				if len(nd.validSeen) < t || len(held) < t {
+					bad("C33:seed-below-threshold", fmt.Sprintf("the round has random seed %d; valid shares of %d parties were delivered, %d are held", nd.mr.GetRandomSeed(), len(nd.validSeen), len(held)))
+					return
+				}
+				if nd.mr.GetRandomSeed() != wantSeed || nd.mr.GetVRFOutput() != wantRBO {
+					bad("C33:seed-not-from-valid-group-signature", fmt.Sprintf("seed %d (vrf output %.16s), the group signature recovered from valid shares defines %d (%.16s)", nd.mr.GetRandomSeed(), nd.mr.GetVRFOutput(), wantSeed, wantRBO))
+					return
+				}
+			} else if len(nd.validSeen) < t {
+				run.Count("c33.below_threshold_evaluated", 1)
+			}
+		}
+
+		// ---- phase 1: nothing can be checked yet
+		for _, nd := range nodesP {
+			for si, m := range nd.early {
+				step(nd, m, "early", si)
+			}
+		}
+		// ---- release
+		switch mech {
+		case "prev-round-unknown":
+			pr = mc.AddRound(mc.CreateRound(round.NewRound(prn))).(*miner.Round)
+			fallthrough
+		case "prev-seed-unknown":
+			if !mc.SetRandomSeed(pr.Round, prevSeed) {
+				run.Inconclusive("cannot set the previous round's seed")
+				return
+			}
+		case "timeout-count-ahead":
+			for _, nd := range nodesP {
+				for nd.mr.GetTimeoutCount() < roundTC {
+					nd.mr.SetTimeoutCount(nd.mr.GetTimeoutCount() + 1)
+				}
+			}
+		}
+		if got, err := mc.GetBlsMessageForRound(nodesP[0].mr.Round); err != nil || got != msg {
+			run.Inconclusive(fmt.Sprintf("%s %s: VRF message after the release is %q (err %v), the workload assumed %q", tn, mech, got, err, msg))
+			return
+		}
+		// ---- phase 2
+		for _, nd := range nodesP {
+			for si, m := range nd.late {
+				step(nd, m, "late", si)
+			}
+		}
+		// ---- end of the episode: agreement between the observers
+		var withSeed []*c33PNode
+		for _, nd := range nodesP {
+			hasSeed := nd.mr.HasRandomSeed()
+			run.Distinct(fmt.Sprintf("parked|%s|%s|%s|early=%d|tc=%d|seed=%v|failed=%v", tn, mech, nd.name, len(nd.early), roundTC, hasSeed, nd.failed))
+			if nd.failed {
+				continue
+			}
+			held := len(nd.mr.GetVRFShares())
+			switch {
+			case hasSeed:
+				withSeed = append(withSeed, nd)
+			case held >= t:
+				// threshold-many verified shares came out of the cache while the message that released them did not
+				// verify; later shares are ignored ("already at threshold") and nobody derives the seed. No wrong seed
+				// and no unverified share: not a C33 verdict, recorded as an observation.
+				run.Count("c33.observed_threshold_shares_released_from_cache_without_seed", 1)
+			default:
+				violate(run, "C33:valid-share-not-counted", fmt.Sprintf("t=%d n=%d, %s, observer %s: every party's valid share was delivered after the release, the round holds %d shares and has no seed", t, n, mech, nd.name, held),
+					map[string]interface{}{"seed": mon.Seed(), "t": t, "n": n, "mechanism": mech, "observer": nd.name, "early": c33Labels(nd.early), "late": c33Labels(nd.late)})
+			}
+		}
+		for i := 1; i < len(withSeed); i++ {
+			run.Eval(1)
+			run.Count("c33.seed_agreement_evaluated", 1)
+			run.Count("c33.parked_seed_agreement_evaluated", 1)
+			a, b := withSeed[0], withSeed[i]
+			if a.mr.GetRandomSeed() != b.mr.GetRandomSeed() || a.mr.GetVRFOutput() != b.mr.GetVRFOutput() {
+				violate(run, "C33:seeds-differ-between-arrival-orders", fmt.Sprintf("t=%d n=%d round %d timeout %d, %s: observer %s derived seed %d, observer %s derived %d from the same share messages", t, n, rn, roundTC, mech, a.name, a.mr.GetRandomSeed(), b.name, b.mr.GetRandomSeed()),
+					map[string]interface{}{"seed": mon.Seed(), "t": t, "n": n, "mechanism": mech, "a": a.name, "b": b.name, "a_early": c33Labels(a.early), "a_late": c33Labels(a.late), "b_early": c33Labels(b.early), "b_late": c33Labels(b.late)})
+			}
+		}
+		_ = self
+	}
+}
+
+func c33Labels(ms []c33PMsg) []string {
+	out := make([]string, 0, len(ms))
+	for _, m := range ms {
+		out = append(out, fmt.Sprintf("%s@%d/tc%d", m.class, m.party, m.tc))
+	}
+	return out
 }
 
 func pathName(full bool) string {
